@@ -78,3 +78,15 @@ Definition run_fetch (x:sx) : sx :=
       end
   | _ => sx_bad
   end.
+
+(* (master sources) -> (master_ok srcs_ok): the hypotheses of Proofs/FetchTotal.v (fetch_total)
+   evaluated on a wire master and wire sources *)
+Definition run_fetchok (x:sx) : sx :=
+  match x with
+  | SL [m; ss] =>
+      match objs_of_sx m, srcs_of_sx ss with
+      | Some m', Some ss' => SL [sx_bool (master_ok m'); sx_bool (srcs_ok ss')]
+      | _, _ => sx_bad
+      end
+  | _ => sx_bad
+  end.
